@@ -1,0 +1,3 @@
+// Package verifexport re-exports a few internal stages of the validator for
+// external conformance harnesses. It is empty unless built with `-tags verif`.
+package verifexport
